@@ -91,9 +91,9 @@ var htmlBlockType4Close = []byte{'>'}
 var htmlBlockType5OpenRegexp = regexp.MustCompile(`^[ ]{0,3}<\!\[CDATA\[`)
 var htmlBlockType5Close = []byte{']', ']', '>'}
 
-var htmlBlockType6Regexp = regexp.MustCompile(`^[ ]{0,3}<(?:/[ ]*)?([a-zA-Z]+[a-zA-Z0-9\-]*)(?:[ \t].*|>.*|/>.*|)(?:\r\n|\n)?$`) //nolint:golint,lll
+var htmlBlockType6Regexp = regexp.MustCompile(`^[ ]{0,3}<(?:/)?([a-zA-Z]+[a-zA-Z0-9\-]*)(?:[ \t].*|>.*|/>.*|)(?:\r\n|\n)?$`) //nolint:golint,lll
 
-var htmlBlockType7Regexp = regexp.MustCompile(`^[ ]{0,3}<(/[ ]*)?([a-zA-Z]+[a-zA-Z0-9\-]*)(` + attributePattern + `*)[ \t]*(?:>|/>)[ \t]*(?:\r\n|\n)?$`) //nolint:golint,lll
+var htmlBlockType7Regexp = regexp.MustCompile(`^[ ]{0,3}<(/)?([a-zA-Z]+[a-zA-Z0-9\-]*)(` + attributePattern + `*)[ \t]*(?:>|/>)[ \t]*(?:\r\n|\n)?$`) //nolint:golint,lll
 
 type htmlBlockParser struct {
 }
